@@ -39,7 +39,11 @@ class AnsiFormatter(Formatter):
         formatted = self._formatter.colorize(string)
 
         if style is not None:
-            self._formatter._style_stack.pop()
+            pastel_style = self._formatter._style_stack.pop()
+
+            if not self._formatter.FULL_TAG_REGEX.search(string):
+                # Pastel leaves text without any tag untouched
+                formatted = pastel_style.apply(formatted) if formatted else formatted
 
         return formatted
 
